@@ -11,7 +11,8 @@ EXTENDS Frost, Json
 
 CONSTANTS Shapes, IdSets, KeyChoices, CoeffChoices, RandChoices, Msg, MaxExtra,
           SeedChoices,      \* randomizer seeds (values encoded as 2 bytes)
-          Faults,           \* subset of {"none","seed","comm","share","fixed"}
+          Faults,           \* subset of {"none","seed","comm","share","fixed","few"}
+          SeedFaults,       \* how the victim's seed differs: subset of {"last","append","append0","trunc","empty"}
           FixedAlphas,      \* explicit randomizers for fault "fixed" (honest run with from_randomizer)
           Modes, EMIT
 
@@ -45,10 +46,19 @@ MakeKp ==
 Choose ==
   /\ pc[1] = "choose"
   /\ \E S \in SUBSET {sc.ids[k] : k \in 1..sc.n}, f \in Faults :
-       /\ Card(S) >= sc.t /\ Card(S) <= sc.t + MaxExtra
-       /\ \E v \in S : sc' = sc @@ [S |-> Sorted(S), fault |-> f, victim |-> v]
-  /\ pc' = <<"commit", 1>>
+       \* "few": t-1 colluding signers whose key packages claim a lower threshold
+       /\ IF f = "few" THEN Card(S) = sc.t - 1 /\ Card(S) >= 1 ELSE Card(S) >= sc.t /\ Card(S) <= sc.t + MaxExtra
+       /\ \E v \in S, how \in (IF f = "seed" THEN SeedFaults ELSE {"last"}) :
+            sc' = sc @@ [S |-> Sorted(S), fault |-> f, victim |-> v, how |-> how]
+  /\ pc' = IF sc'.fault = "few" THEN <<"lie", 1>> ELSE <<"commit", 1>>
   /\ UNCHANGED fvars
+
+KPH(i) == IF sc.fault = "few" THEN <<"kpL", i>> ELSE <<"kp", i>>
+Lie ==
+  /\ pc[1] = "lie"
+  /\ LET i == sc.S[pc[2]] IN ActLieMin(<<"kpL", i>>, <<"kp", i>>, Len(sc.S))
+  /\ pc' = IF pc[2] = Len(sc.S) THEN <<"commit", 1>> ELSE <<"lie", pc[2] + 1>>
+  /\ UNCHANGED sc
 
 SSet == {sc.S[k] : k \in DOMAIN sc.S}
 LastS(k) == k = Len(sc.S)
@@ -86,7 +96,7 @@ Regen ==
 
 BadSeed ==
   /\ pc[1] = "badseed"
-  /\ ActTamperSeed(SEEDX, SEED, 1)
+  /\ ActTamperSeedHow(SEEDX, SEED, sc.how, 1)
   /\ pc' = <<"sign", 1>>
   /\ UNCHANGED sc
 
@@ -104,7 +114,7 @@ DoSign ==
   /\ LET i == sc.S[pc[2]]
          seed == IF sc.fault = "seed" /\ i = sc.victim THEN SEEDX ELSE SEED
          pkg == IF sc.fault = "comm" /\ i = sc.victim THEN PKGX ELSE PKG
-     IN ActRrSign(<<"z", i>>, pkg, <<"non", i>>, <<"kp", i>>, seed)
+     IN ActRrSign(<<"z", i>>, pkg, <<"non", i>>, KPH(i), seed)
   /\ Go(IF LastS(pc[2]) THEN (IF sc.fault = "share" THEN <<"badshare", 0>> ELSE <<"agg", 1>>) ELSE <<"sign", pc[2] + 1>>)
   /\ UNCHANGED sc
 
@@ -141,7 +151,7 @@ VerifyOriginal ==
   /\ pc' = IF pc[2] = Len(Modes) THEN <<"done", 0>> ELSE <<"agg", pc[2] + 1>>
   /\ UNCHANGED sc
 
-Next == KeyGen \/ MakeKp \/ Choose \/ DoCommit \/ DoPackage \/ Params \/ Regen \/ BadSeed \/ BadComm \/ DoSign
+Next == KeyGen \/ MakeKp \/ Choose \/ Lie \/ DoCommit \/ DoPackage \/ Params \/ Regen \/ BadSeed \/ BadComm \/ DoSign
         \/ FSign \/ BadShare \/ DoAggregate \/ VerifyRandomized \/ VerifyOriginal
 Spec == Init /\ [][Next]_vars
 
@@ -185,6 +195,10 @@ InvFaulty ==
 InvFaultyShare ==
   (Chosen /\ sc.fault = "share" /\ last.op = "aggregate") =>
      (~last.res.ok /\ (ModeOfLast # "Disabled" => last.res.culprits = <<sc.victim>>))
+
+\* fewer than t signers never obtain a signature, randomized or not
+InvFew ==
+  (Chosen /\ sc.fault = "few" /\ last.op = "aggregate") => (~last.res.ok /\ last.res.err = "IncorrectNumberOfShares")
 
 Emit == (EMIT /\ pc[1] = "done" /\ Chosen) =>
    PrintT(ToJson(Script("C17") @@ [probe |-> sc.fault, gen_accept |-> (sc.fault \in {"none", "fixed"}),
